@@ -37,7 +37,7 @@ def run(ctx):
     rep, facts = ctx.report, ctx.facts
     rep.guarded("dispatch", L, lambda: rule_dispatch(facts, rep))
     rep.guarded("tables", L, lambda: rule_tables(facts, rep))
-    rep.guarded("scan", L, lambda: rule_scan(facts, rep))
+    rep.guarded("scan", L, lambda: rule_scan(facts, rep, ctx.tier))
     rep.guarded("distance", L + "distance", lambda: rule_distance(facts, rep))
     # the palette scan finds a slot index and names it through anstyle's index <-> 4-bit colour tables (Ansi256Color::into_ansi /
     # from_ansi): a transposed entry there makes an exact palette colour map to another one
@@ -103,10 +103,7 @@ def rule_dispatch(facts, rep):
     rep.fn(b["path"])
     got = call(b["path"], [("sym", "rgb"), pal])
     rep.check(got == ("nearest", pal, ("sym", "rgb")), "dispatch", b["path"], "delegates", f"rgb_to_ansi(colour, palette) = palette.find_match(colour): {str(got)[:120]}", loc(b))
-    b = facts.body("anstyle_lossy", L + "rgb_to_xterm")
-    calls = [n for n in hir.walk(b["hir"]) if hir.is_call(n, L + "find_xterm_match")]
-    ctor = [n for n in hir.walk(b["hir"]) if n.get("k") == "call" and n.get("ctor") == "anstyle::color::Ansi256Color"]
-    rep.check(len(calls) == 1 and hir.is_local(calls[0]["args"][0], "color") and len(ctor) == 1, "dispatch", b["path"], "index-of-best-match", "", loc(b))
+    # rgb_to_xterm: by value, in rule scan (rule_nearest)
 
 
 def rule_tables(facts, rep):
@@ -204,7 +201,7 @@ def rule_tables(facts, rep):
     rep.check(p["variants"][0]["fields"][0]["ty"] in ("[anstyle::color::RgbColor; 16]",), "tables", p["path"], "16-entries", p["variants"][0]["fields"][0]["ty"], "")
 
 
-def rule_scan(facts, rep):
+def rule_scan(facts, rep, tier="quick"):
     for path, start, table_is in ((L + "find_xterm_match", 16, lambda e: hir.is_def(e, "anstyle_lossy::XTERM_COLORS")),
                                   (L + "palette::Palette::find_match", 0, lambda e: hir.place_str(e) == "self.0")):
         b = facts.body("anstyle_lossy", path)
@@ -284,30 +281,85 @@ def rule_scan(facts, rep):
         # writers of best_index: the initialisation and the update only
         w = [n for n in hir.walk(b["hir"]) if n.get("k") in ("assign", "assignop") and hir.local_name(n["l"]) in ("best_index", "index")]
         rep.check(len(w) == 2, "scan", path, "no-other-writes", f"{len(w)}", loc(b))
-    # result use
-    b = facts.body("anstyle_lossy", L + "find_xterm_match")
-    rep.check(hir.is_local(hir.stmts_of(b["hir"])[-1], "best_index"), "scan", b["path"], "returns-best_index", "", loc(b))
-    b = facts.body("anstyle_lossy", L + "palette::Palette::find_match")
-    # the result is the Some-projection of Ansi256Color(best_index as u8).into_ansi() — `if let`, `match` or `let .. else`
-    O = hir.Origins(b["hir"])
-    ok = False
-    vals = []
-    tail = hir.simp(hir.stmts_of(b["hir"])[-1])
-    if tail.get("k") in ("if", "match"):
-        vals = O._branch_values(tail) or []
-    elif tail.get("k") == "local":
-        vals = [tail]
-    good = 0
-    for v in vals:
-        src, proj = O.of(v)
-        if hir.is_call(src, "anstyle::color::Ansi256Color::into_ansi") and proj == ("Some",):
-            arg = hir.simp(src["args"][0])
-            if arg.get("ctor") == "anstyle::color::Ansi256Color" and hir.is_local(hir.simp(arg["args"][0]), "best_index"):
-                good += 1
-    # any other branch value is the unreachable fallback (it must sit behind the out-of-bounds index that panics)
-    others = [v for v in vals if not (hir.is_call(O.of(v)[0], "anstyle::color::Ansi256Color::into_ansi"))]
-    ok = good == 1 and len(others) <= 1
-    rep.check(ok, "scan", b["path"], "returns-into_ansi(best_index)", "best_index < 16 (scan bound) so into_ansi is Some: the fallback arm is unreachable", loc(b))
+    # result use: what the public conversions return is the index the scan found — by value (rule_nearest)
+    rule_nearest(facts, rep, tier)
+
+
+def _metric(c1, c2):
+    """The integer red-mean distance (https://www.compuphase.com/cmetric.htm without the square root)."""
+    rs = c1[0] + c2[0]
+    return (1024 + rs) * (c1[0] - c2[0]) ** 2 + 1024 * (c1[1] - c2[1]) ** 2 + (1534 - rs) * (c1[2] - c2[2]) ** 2
+
+
+def rule_nearest(facts, rep, tier="quick"):
+    """rgb_to_xterm(colour) and rgb_to_ansi(colour, palette) by value, against an independent model: the result is the candidate of
+    minimal red-mean distance, the lowest index among equals.  Candidates: xterm's fixed colours 16..=255 (spec table) / the 16
+    entries of the palette (the crate's own VGA and WIN10 palettes and one with duplicate and extreme entries).  Inputs: every
+    candidate itself (an exact entry maps to itself, the lowest index if repeated) and a stratified grid.  The crate's distance
+    function is replaced by the model metric here (it is decided as a polynomial in rule `distance`), everything else — the scan,
+    the cast of the index, the helper it sits in, anstyle's index <-> colour tables — is evaluated as written."""
+    import abseval
+    RGB = "anstyle::color::RgbColor"
+
+    def rgbv(c):
+        return ("ctor", RGB) + tuple(("int", x) for x in c)
+
+    def dist(a_):
+        return ("int", _metric([x[1] for x in a_[0][2:]], [x[1] for x in a_[1][2:]]))
+
+    def call(path, args):
+        ev = abseval.Evaluator(facts, "anstyle_lossy", {L + "distance": dist}, inline_crates=("anstyle_lossy", "anstyle"))
+        ev.loop_bound = 400
+        return ev.call_fn("anstyle_lossy", path, args)
+    grid = [(r, g, b) for r in (0, 47, 96, 128, 215, 255) for g in (0, 95, 115, 255) for b in (0, 8, 135, 255)]
+    if tier == "thorough":
+        grid += [(r, g, b) for r in range(3, 256, 28) for g in range(5, 256, 36) for b in range(7, 256, 31)]
+    # 256-colour target
+    b = facts.body("anstyle_lossy", L + "rgb_to_xterm")
+    rep.fn(b["path"])
+    cands = [(i, sgr.xterm_rgb(i)) for i in range(16, 256)]
+    bad, n = [], 0
+    try:
+        for c in [c for _, c in cands] + grid:
+            want = min(cands, key=lambda ic: (_metric(c, ic[1]), ic[0]))[0]
+            got = call(b["path"], [rgbv(c)])
+            n += 1
+            if got != ("ctor", "anstyle::color::Ansi256Color", ("int", want)):
+                bad.append(f"{c}: {str(got)[:60]}, nearest fixed colour is {want}")
+    except Unrecognised as ex:
+        bad.append(f"not evaluable: {ex}")
+    rep.check(not bad, "dispatch", b["path"], "index-of-best-match", f"{n} colours by value; {bad[:2]}"[:300], loc(b))
+    rep.check(not bad, "scan", L + "find_xterm_match", "returns-best_index", f"{n} colours by value; {bad[:2]}"[:300], loc(b))
+    rep.count(n)
+    # 16-colour target
+    b = facts.body("anstyle_lossy", L + "rgb_to_ansi")
+    rep.fn(b["path"])
+    pals = {}
+    ev0 = abseval.Evaluator(facts, "anstyle_lossy", {}, inline_crates=("anstyle_lossy", "anstyle"))
+    for name in ("VGA", "WIN10_CONSOLE"):
+        v = ev0._const_value(L + "palette::" + name)
+        if v is not None:
+            pals[name] = v
+    odd = [(0, 0, 0), (255, 255, 255), (0, 0, 0), (255, 0, 0), (254, 0, 0), (255, 255, 255), (1, 1, 1), (128, 128, 128),
+           (128, 128, 128), (0, 255, 0), (0, 0, 255), (0, 0, 254), (255, 255, 0), (255, 255, 0), (12, 200, 77), (0, 0, 0)]
+    pals["duplicates-and-extremes"] = ("ctor", L + "palette::Palette", ("array",) + tuple(rgbv(c) for c in odd))
+    bad, n = [], 0
+    try:
+        for name, pv in pals.items():
+            entries = [tuple(x[1] for x in e[2:]) for e in pv[2][1:]]
+            if len(entries) != 16:
+                raise Unrecognised(f"palette {name} has {len(entries)} entries")
+            for c in entries + grid[::2]:
+                want = min(range(16), key=lambda i_: (_metric(c, entries[i_]), i_))
+                got = call(b["path"], [rgbv(c), pv])
+                n += 1
+                if got != ("enum", "anstyle::color::AnsiColor::" + sgr.ANSI16[want]):
+                    bad.append(f"palette {name}, {c}: {str(got)[:60]}, nearest entry is {want} ({sgr.ANSI16[want]})")
+    except Unrecognised as ex:
+        bad.append(f"not evaluable: {ex}")
+    rep.check(not bad and len(pals) == 3, "scan", L + "palette::Palette::find_match", "returns-into_ansi(best_index)",
+              f"{n} (palette, colour) pairs by value over {sorted(pals)}; {bad[:2]}"[:300], loc(b))
+    rep.count(n)
 
 
 class Iv:
